@@ -16,7 +16,7 @@ FUNCS = [('giscanner/annotationparser.py',
 def conditions(tier):
     import h_c10 as H
     quick = tier == 'quick'
-    T = 150 if quick else 1500
+    T = 240 if quick else 1500
     conds = []
     lay = [('indent', 'int'), ('eol', 'int'), ('split', 'bool'), ('colon', 'bool'), ('cont_indent', 'int')]
     laypre = ['0 <= indent < %d' % len(H.INDENTS), '0 <= eol < %d' % len(H.EOLS), '0 <= cont_indent <= 1']
